@@ -85,7 +85,12 @@ def judge_events(events, marker, root):
         elif kind == "import":
             if "MARK" in ev[1]:
                 bad.append(("import_of_file_text", ev[1]))
-        elif kind in ("pickle.find_class", "marshal.loads", "ctypes.dlopen", "os.putenv"):
+        elif kind == "pickle.find_class":
+            # the worker pool (and its synchronous stand-in) returns parsed files by pickle: classes of the
+            # package itself and of plain containers are expected, anything else is not
+            if ev[1].split(".")[0] not in ("fortls", "builtins", "collections", "re", "copyreg", "pathlib", "enum", "dataclasses", "_sre"):
+                bad.append((kind, str(ev[1:])[:160]))
+        elif kind in ("marshal.loads", "ctypes.dlopen", "os.putenv"):
             bad.append((kind, str(ev[1:])[:160]))
         else:
             if kind in ("os.remove", "os.rename", "os.mkdir", "os.rmdir", "os.chmod", "os.chown", "os.truncate",
